@@ -47,6 +47,15 @@ type subtable struct {
 	Glyphs []uint16 `json:"glyphs,omitempty"`
 	// formats 12 and 13
 	Groups []group `json:"groups,omitempty"`
+	// format 14 (variation selectors; must sit at (0,5))
+	Selectors []uvsSel `json:"selectors,omitempty"`
+}
+
+// uvsSel is one variation selector record of a format 14 subtable.
+type uvsSel struct {
+	Selector   uint32      `json:"selector"`
+	Default    [][2]uint32 `json:"default,omitempty"`     // (start, additionalCount)
+	NonDefault [][2]uint32 `json:"non_default,omitempty"` // (unicode, glyph)
 }
 
 type synthCase struct {
@@ -156,10 +165,94 @@ func (st *subtable) serialize() []byte {
 			w.u32(g.End)
 			w.u32(g.Glyph)
 		}
+	case 14:
+		u24 := func(v uint32) { w.u8(uint8(v >> 16)); w.u8(uint8(v >> 8)); w.u8(uint8(v)) }
+		var tail wr
+		off := 10 + 11*len(st.Selectors)
+		type offs struct{ d, n uint32 }
+		os := make([]offs, len(st.Selectors))
+		for i, sel := range st.Selectors {
+			if sel.Default != nil {
+				os[i].d = uint32(off + len(tail.b))
+				tail.u32(uint32(len(sel.Default)))
+				for _, r := range sel.Default {
+					tail.u8(uint8(r[0] >> 16))
+					tail.u8(uint8(r[0] >> 8))
+					tail.u8(uint8(r[0]))
+					tail.u8(uint8(r[1]))
+				}
+			}
+			if sel.NonDefault != nil {
+				os[i].n = uint32(off + len(tail.b))
+				tail.u32(uint32(len(sel.NonDefault)))
+				for _, r := range sel.NonDefault {
+					tail.u8(uint8(r[0] >> 16))
+					tail.u8(uint8(r[0] >> 8))
+					tail.u8(uint8(r[0]))
+					tail.u16(uint16(r[1]))
+				}
+			}
+		}
+		w.u16(14)
+		w.u32(uint32(off + len(tail.b)))
+		w.u32(uint32(len(st.Selectors)))
+		for i, sel := range st.Selectors {
+			u24(sel.Selector)
+			w.u32(os[i].d)
+			w.u32(os[i].n)
+		}
+		w.b = append(w.b, tail.b...)
 	default:
 		panic("harness: unsupported format")
 	}
 	return w.b
+}
+
+// uvsValid: the format 14 subtable obeys the specification (selectors sorted and unique, default
+// ranges sorted and disjoint, non-default mappings sorted and unique, the two disjoint, all codes
+// within 24 bits): then GetGlyphVariant must agree with a linear scan.
+func (st *subtable) uvsValid() bool {
+	for i, sel := range st.Selectors {
+		if sel.Selector > 0xFFFFFF || i > 0 && st.Selectors[i-1].Selector >= sel.Selector {
+			return false
+		}
+		for j, r := range sel.Default {
+			if r[0]+r[1] > 0xFFFFFF || r[1] > 255 || j > 0 && sel.Default[j-1][0]+sel.Default[j-1][1] >= r[0] {
+				return false
+			}
+		}
+		for j, r := range sel.NonDefault {
+			if r[0] > 0xFFFFFF || r[1] > 0xFFFF || j > 0 && sel.NonDefault[j-1][0] >= r[0] {
+				return false
+			}
+			for _, d := range sel.Default {
+				if r[0] >= d[0] && r[0] <= d[0]+d[1] {
+					return false
+				}
+			}
+		}
+	}
+	return true
+}
+
+// uvsModel is the linear-scan reading of a valid format 14 subtable: 0 not found, 1 use default, 2 found.
+func (st *subtable) uvsModel(r, selector uint32) (glyph uint32, kind uint8) {
+	for _, sel := range st.Selectors {
+		if sel.Selector != selector {
+			continue
+		}
+		for _, d := range sel.Default {
+			if r >= d[0] && r <= d[0]+d[1] {
+				return 0, 1
+			}
+		}
+		for _, m := range sel.NonDefault {
+			if m[0] == r {
+				return m[1], 2
+			}
+		}
+	}
+	return 0, 0
 }
 
 func (c *synthCase) serialize() []byte {
@@ -343,6 +436,7 @@ func checkSynth(t ev.TB, c *synthCase) {
 	defer ev.JournalDone()
 	var (
 		cm       font.Cmap
+		uv       font.UnicodeVariations
 		err      error
 		panicked any
 	)
@@ -357,7 +451,7 @@ func checkSynth(t ev.TB, c *synthCase) {
 		if err != nil {
 			return
 		}
-		cm, _, err = font.ProcessCmap(tb, tables.FontPage(c.FontPage))
+		cm, uv, err = font.ProcessCmap(tb, tables.FontPage(c.FontPage))
 	}()
 	// structure of every subtable; the one selected is identified after processing
 	anyMalformed := false
@@ -432,6 +526,9 @@ func checkSynth(t ev.TB, c *synthCase) {
 		labels = append(labels, "multi_subtable")
 	}
 	ev.Case(nontrivial, data, labels...)
+	if msg := c.checkUVS(uv); msg != "" {
+		ev.Fail(t, "synth", &cc, "synthetic cmap, format 14 subtable: %s", msg)
+	}
 	if first == nil && rp.counts[dIterRunaway] == 0 {
 		// font level: the same table inside a minimal font file, through the loader and both
 		// scanning paths
@@ -757,6 +854,309 @@ func genGroups(t *rapid.T, format int, symbol bool) []group {
 	return gs
 }
 
+// checkUVS: a specification-valid format 14 subtable at (0,5) must answer GetGlyphVariant as a
+// linear scan of its records does (probed at every range boundary and its neighbours, for every
+// selector of the table and two absent ones). Malformed ones carry no law here.
+func (c *synthCase) checkUVS(uv font.UnicodeVariations) string {
+	for i := range c.Subtables {
+		st := &c.Subtables[i]
+		if st.Format != 14 || st.Platform != 0 || st.Encoding != 5 {
+			continue
+		}
+		if !st.uvsValid() {
+			ev.Label("uvs_malformed_accepted")
+			return ""
+		}
+		ev.Label("uvs_valid_checked")
+		sels := []uint32{0xFE00 - 1, 0xE01F0}
+		var probes []uint32
+		for _, sel := range st.Selectors {
+			sels = append(sels, sel.Selector)
+			for _, d := range sel.Default {
+				probes = append(probes, d[0]-1, d[0], d[0]+1, d[0]+d[1]-1, d[0]+d[1], d[0]+d[1]+1)
+			}
+			for _, m := range sel.NonDefault {
+				probes = append(probes, m[0]-1, m[0], m[0]+1)
+			}
+		}
+		for _, sel := range sels {
+			for _, r := range probes {
+				if r > maxRune {
+					continue
+				}
+				var (
+					g    font.GID
+					kind uint8
+				)
+				if p := guard(func() { g, kind = uv.GetGlyphVariant(rune(r), rune(sel)) }); p != nil {
+					return fmt.Sprintf("GetGlyphVariant(%s, %s) panics on a valid table: %v", u(rune(r)), u(rune(sel)), p)
+				}
+				wg, wk := st.uvsModel(r, sel)
+				if kind != wk || kind == 2 && uint32(g) != wg {
+					return fmt.Sprintf("GetGlyphVariant(%s, %s) = (%d, kind %d); the records of the table say (%d, kind %d) [0 not found, 1 use default, 2 found]", u(rune(r)), u(rune(sel)), g, kind, wg, wk)
+				}
+			}
+		}
+	}
+	return ""
+}
+
+func genUVS(t *rapid.T) subtable {
+	st := subtable{Platform: 0, Encoding: 5, Format: 14}
+	if rapid.IntRange(0, 19).Draw(t, "uvs_wrong_id") == 19 {
+		st.Platform, st.Encoding = 3, 10 // rejected by ProcessCmap
+	}
+	n := rapid.IntRange(0, 3).Draw(t, "uvs_selectors")
+	sel := uint32(rapid.SampledFrom([]int{0xFE00, 0xFE0E, 0xE0100}).Draw(t, "uvs_first"))
+	for i := 0; i < n; i++ {
+		rec := uvsSel{Selector: sel}
+		cur := uint32(rapid.SampledFrom([]int{0x30, 0x4E00, 0x1F600, 0xFFFE}).Draw(t, "uvs_base"))
+		nd := rapid.IntRange(0, 4).Draw(t, "uvs_default")
+		for j := 0; j < nd; j++ {
+			add := uint32(rapid.SampledFrom([]int{0, 0, 1, 5, 255}).Draw(t, "uvs_add"))
+			rec.Default = append(rec.Default, [2]uint32{cur, add})
+			cur += add + uint32(rapid.SampledFrom([]int{1, 1, 2, 40}).Draw(t, "uvs_gap"))
+		}
+		nn := rapid.IntRange(0, 4).Draw(t, "uvs_nondefault")
+		for j := 0; j < nn; j++ {
+			rec.NonDefault = append(rec.NonDefault, [2]uint32{cur, uint32(rapid.IntRange(0, 300).Draw(t, "uvs_glyph"))})
+			cur += uint32(rapid.SampledFrom([]int{1, 1, 2, 40}).Draw(t, "uvs_gap"))
+		}
+		// composed malformations: unsorted / overlapping / duplicated records
+		switch rapid.IntRange(0, 11).Draw(t, "uvs_hostile") {
+		case 8:
+			if len(rec.Default) >= 2 {
+				rec.Default[0], rec.Default[1] = rec.Default[1], rec.Default[0]
+			}
+		case 9:
+			if len(rec.Default) >= 2 {
+				rec.Default[1][0] = rec.Default[0][0] + rec.Default[0][1] // overlaps the previous range by one
+			}
+		case 10:
+			if len(rec.NonDefault) >= 2 {
+				rec.NonDefault[1] = rec.NonDefault[0]
+			}
+		case 11:
+			if len(rec.NonDefault) >= 1 && len(rec.Default) >= 1 {
+				rec.NonDefault[0][0] = rec.Default[0][0] // in both tables
+			}
+		}
+		st.Selectors = append(st.Selectors, rec)
+		switch rapid.IntRange(0, 9).Draw(t, "uvs_next") {
+		case 8:
+			// duplicate selector
+		case 9:
+			sel-- // unsorted
+		default:
+			sel += uint32(rapid.IntRange(1, 3).Draw(t, "uvs_step"))
+		}
+	}
+	return st
+}
+
+// ---- composed malformations -----------------------------------------------------------------------
+//
+// The sanitising constructors (newCmap4, sanitizeGroups) look at each segment/group relative to
+// what they kept so far; a defect there needs TWO malformations interacting (an invalid element
+// that disturbs the state used to judge the next one). These generators therefore draw every
+// element of a sequence from a set of kinds, so that 2-3 malformed elements end up adjacent or
+// separated by valid ones.
+
+const (
+	kValid = iota
+	kValid2
+	kValid3
+	kInverted     // start > end, around the current position
+	kInvertedBack // start > end, end inside or before an earlier element
+	kOverlapPrev  // starts inside the previous valid element, ends after it
+	kOverlapEarly // starts inside an earlier valid element
+	kDuplicate    // copy of an earlier element
+	kOutOfOrder   // entirely before the first element
+	kBeyond       // beyond the code space (formats 12/13)
+	kGlyphWrap    // glyph ids that wrap around
+	kSingle       // a single code
+	kInsidePrev   // entirely inside the previous valid element
+	kAbutInverted // inverted element that starts right after the previous valid one
+	nKinds
+)
+
+func genGroupsComposed(t *rapid.T, format int) []group {
+	n := rapid.IntRange(2, 7).Draw(t, "cgroups")
+	base := uint32(rapid.SampledFrom([]int{0x100, 0x20, 0xFF00, 0x10000, 0xE0100, 0x10FF00}).Draw(t, "cbase"))
+	var gs, valid []group
+	cur := base
+	glyph := func() uint32 { return uint32(rapid.IntRange(1, 400).Draw(t, "cgid")) }
+	span := func() uint32 { return uint32(rapid.SampledFrom([]int{1, 2, 16, 0x100, 0x120}).Draw(t, "cspan")) }
+	for i := 0; i < n; i++ {
+		kind := rapid.IntRange(0, nKinds-1).Draw(t, "ckind")
+		if len(valid) == 0 && kind != kInverted && kind != kBeyond && kind != kSingle && kind != kGlyphWrap {
+			kind = kValid
+		}
+		var g group
+		switch kind {
+		case kValid, kValid2, kValid3, kSingle, kGlyphWrap:
+			gap := uint32(rapid.SampledFrom([]int{1, 1, 2, 0x50, 0x101}).Draw(t, "cgap"))
+			l := span()
+			if kind == kSingle {
+				l = 1
+			}
+			g = group{Start: cur + gap, End: cur + gap + l - 1, Glyph: glyph()}
+			if kind == kGlyphWrap {
+				g.Glyph = rapid.SampledFrom([]uint32{0, 0xFFFF, 0xFFFFFFFF, uint32(0) - l/2}).Draw(t, "cwrap")
+			}
+			if g.End <= maxRune {
+				valid = append(valid, g)
+				cur = g.End
+			}
+		case kInverted:
+			l := span() + 1
+			g = group{Start: cur + 1 + l, End: cur + 1, Glyph: glyph()}
+		case kAbutInverted:
+			g = group{Start: cur + 1, End: cur, Glyph: glyph()}
+		case kInvertedBack:
+			e := valid[rapid.IntRange(0, len(valid)-1).Draw(t, "cback")]
+			g = group{Start: cur + span(), End: e.Start + (e.End-e.Start)/2, Glyph: glyph()}
+			if g.Start <= g.End {
+				g.Start = g.End + 1
+			}
+		case kOverlapPrev:
+			p := valid[len(valid)-1]
+			g = group{Start: p.Start + (p.End-p.Start)/2, End: p.End + span(), Glyph: glyph()}
+		case kInsidePrev:
+			p := valid[len(valid)-1]
+			g = group{Start: p.Start, End: p.Start + (p.End-p.Start)/2, Glyph: glyph()}
+		case kOverlapEarly:
+			e := valid[rapid.IntRange(0, len(valid)-1).Draw(t, "cearly")]
+			g = group{Start: e.End, End: e.End + span(), Glyph: glyph()}
+		case kDuplicate:
+			g = valid[rapid.IntRange(0, len(valid)-1).Draw(t, "cdup")]
+		case kOutOfOrder:
+			f := valid[0]
+			l := span()
+			if f.Start > l+1 {
+				g = group{Start: f.Start - l - 1, End: f.Start - 2, Glyph: glyph()}
+			} else {
+				g = group{Start: 0, End: 0, Glyph: glyph()}
+			}
+		case kBeyond:
+			lo := rapid.SampledFrom([]uint32{0x10FFF0, 0x10FFFF, 0x110000, 0x1000041, 0xFFFFFF00}).Draw(t, "cbeyond")
+			g = group{Start: lo, End: lo + uint32(rapid.IntRange(0, 40).Draw(t, "cbeyondlen")), Glyph: glyph()}
+		}
+		gs = append(gs, g)
+	}
+	return gs
+}
+
+func genSegs4Composed(t *rapid.T) []seg4 {
+	n := rapid.IntRange(2, 6).Draw(t, "csegs")
+	base := rapid.SampledFrom([]int{0x100, 0x20, 0x2000, 0xF000, 0xFE00}).Draw(t, "cbase")
+	var segs, valid []seg4
+	cur := base
+	span := func() int { return rapid.SampledFrom([]int{1, 2, 16, 0x100, 0x120}).Draw(t, "cspan") }
+	mk := func(start, end int) seg4 {
+		if start < 0 {
+			start = 0
+		}
+		if end < 0 {
+			end = 0
+		}
+		if start > 0xFFFE {
+			start = 0xFFFE
+		}
+		if end > 0xFFFE {
+			end = 0xFFFE
+		}
+		sg := seg4{Start: uint16(start), End: uint16(end)}
+		switch rapid.IntRange(0, 3).Draw(t, "cmap") {
+		case 0:
+			if start <= end && end-start < 600 {
+				sg.Glyphs = make([]uint16, end-start+1)
+				for j := range sg.Glyphs {
+					sg.Glyphs[j] = genGlyph16(t, "cg")
+				}
+				sg.Delta = rapid.SampledFrom([]uint16{0, 0, 1, 0xFFFF}).Draw(t, "cadelta")
+				return sg
+			}
+			fallthrough
+		case 1:
+			sg.Delta = uint16(0 - start) // the first code maps to glyph 0
+		case 2:
+			sg.Delta = uint16(rapid.IntRange(0, 0xFFFF).Draw(t, "cdelta"))
+		default:
+			sg.Delta = uint16(rapid.IntRange(1, 300).Draw(t, "cdeltas") - start)
+		}
+		return sg
+	}
+	for i := 0; i < n; i++ {
+		kind := rapid.IntRange(0, nKinds-1).Draw(t, "ckind")
+		if kind == kBeyond {
+			kind = kInverted
+		}
+		if len(valid) == 0 && kind != kInverted && kind != kSingle && kind != kGlyphWrap {
+			kind = kValid
+		}
+		var sg seg4
+		switch kind {
+		case kValid, kValid2, kValid3, kSingle, kGlyphWrap:
+			gap := rapid.SampledFrom([]int{1, 1, 2, 0x50, 0x101}).Draw(t, "cgap")
+			l := span()
+			if kind == kSingle {
+				l = 1
+			}
+			sg = mk(cur+gap, cur+gap+l-1)
+			if kind == kGlyphWrap && sg.Glyphs == nil {
+				sg.Delta = uint16(0 - (cur + gap + l/2))
+			}
+			valid = append(valid, sg)
+			cur = int(sg.End)
+		case kInverted:
+			l := span() + 1
+			sg = mk(cur+1+l, cur+1)
+		case kAbutInverted:
+			sg = mk(cur+1, cur)
+		case kInvertedBack:
+			e := valid[rapid.IntRange(0, len(valid)-1).Draw(t, "cback")]
+			sg = mk(cur+span(), (int(e.Start)+int(e.End))/2)
+		case kOverlapPrev:
+			p := valid[len(valid)-1]
+			sg = mk((int(p.Start)+int(p.End))/2, int(p.End)+span())
+		case kInsidePrev:
+			p := valid[len(valid)-1]
+			sg = mk(int(p.Start), (int(p.Start)+int(p.End))/2)
+		case kOverlapEarly:
+			e := valid[rapid.IntRange(0, len(valid)-1).Draw(t, "cearly")]
+			sg = mk(int(e.End), int(e.End)+span())
+		case kDuplicate:
+			sg = valid[rapid.IntRange(0, len(valid)-1).Draw(t, "cdup")]
+		case kOutOfOrder:
+			f := valid[0]
+			l := span()
+			sg = mk(int(f.Start)-l-1, int(f.Start)-2)
+		}
+		// an inverted segment cannot carry a glyph array
+		if sg.Start > sg.End {
+			sg.Glyphs = nil
+		}
+		segs = append(segs, sg)
+	}
+	switch rapid.IntRange(0, 5).Draw(t, "csentinel") {
+	case 0:
+	case 1:
+		segs = append(segs, seg4{Start: 0xFFFF, End: 0xFFFF, Delta: 1, RawRangeOffset: 0xFFFF})
+	default:
+		segs = append(segs, seg4{Start: 0xFFFF, End: 0xFFFF, Delta: 1})
+	}
+	// rarely: an idRangeOffset pointing outside the table (the table must then be rejected)
+	if rapid.IntRange(0, 29).Draw(t, "coutside") == 29 {
+		i := rapid.IntRange(0, len(segs)-1).Draw(t, "coutside_i")
+		if segs[i].Start <= segs[i].End && segs[i].Start != 0xFFFF {
+			segs[i].Glyphs = nil
+			segs[i].RawRangeOffset = uint16(rapid.SampledFrom([]int{0x7FFE, 0xFFFE, 0x4000}).Draw(t, "coutside_v"))
+		}
+	}
+	return segs
+}
+
 // puaBases: where the symbol (U+F0xx) and legacy Arabic (U+F1xx simplified, U+F2xx traditional)
 // remappings of a (3,0) subtable look for glyphs.
 var puaBases = []int{0xF000, 0xF020, 0xF041, 0xF0F0, 0xF100, 0xF120, 0xF141, 0xF1B0, 0xF200, 0xF220, 0xF241, 0xF2B0}
@@ -778,7 +1178,11 @@ func genSubtable(t *rapid.T, format int, id [2]uint16) subtable {
 		if symbol {
 			base = rapid.SampledFrom(puaBases).Draw(t, "pua_base")
 		}
-		st.Segs = genSegs4(t, base)
+		if rapid.IntRange(0, 3).Draw(t, "composed") == 3 {
+			st.Segs = genSegs4Composed(t)
+		} else {
+			st.Segs = genSegs4(t, base)
+		}
 	case 6:
 		st.First = uint32(genBase16(t))
 		if symbol {
@@ -795,7 +1199,11 @@ func genSubtable(t *rapid.T, format int, id [2]uint16) subtable {
 			st.Glyphs[i] = genGlyph16(t, "g")
 		}
 	case 12, 13:
-		st.Groups = genGroups(t, format, symbol)
+		if rapid.IntRange(0, 2).Draw(t, "composed") == 2 {
+			st.Groups = genGroupsComposed(t, format)
+		} else {
+			st.Groups = genGroups(t, format, symbol)
+		}
 	}
 	return st
 }
@@ -810,6 +1218,16 @@ func genSynth(t *rapid.T) *synthCase {
 		if id2 != id {
 			f2 := rapid.SampledFrom([]int{4, 12, 6, 0, 13, 10}).Draw(t, "format2")
 			c.Subtables = append(c.Subtables, genSubtable(t, f2, id2))
+		}
+	}
+	if rapid.IntRange(0, 7).Draw(t, "uvs") == 7 {
+		uvs := genUVS(t)
+		dup := false
+		for _, st := range c.Subtables {
+			dup = dup || st.Platform == uvs.Platform && st.Encoding == uvs.Encoding
+		}
+		if !dup {
+			c.Subtables = append(c.Subtables, uvs)
 		}
 	}
 	sort.SliceStable(c.Subtables, func(i, j int) bool {
